@@ -83,10 +83,32 @@ class FixedDecode(Unit):
         return [getattr(f, "__func__", f)]
 
     def cases(self, tier):
-        return [{"tail": t} for t in ("none", "unused-buffer-space")] + [{"tail": "none", "short": i} for i in range(len(self.short))]
+        cs = [{"tail": t} for t in ("none", "unused-buffer-space")] + [{"tail": "none", "short": i} for i in range(len(self.short))]
+        # parameters of the decoder that the contract does not pass: a decoder may take request-side arguments (what the
+        # caller ASKED for); the decoded values must still be those of the response the device SENT, whatever was asked
+        extra = self.unknown_parameters()
+        for name in extra:
+            for v in self.request_values.get(name, (0, 1, 2, 3)):
+                cs.append({"tail": "none", "request": [name, v]})
+        return cs
+
+    request_values = {}
+
+    def unknown_parameters(self):
+        import inspect
+
+        try:
+            f = self.parser()
+            sig = inspect.signature(getattr(f, "__func__", f))
+        except (TypeError, ValueError):
+            return []
+        names = [p.name for p in sig.parameters.values() if p.kind in (p.POSITIONAL_OR_KEYWORD, p.KEYWORD_ONLY)]
+        names = [n for n in names if n not in ("cls", "self")][1:]  # the first one is the buffer
+        return [n for n in names if n not in self.kwargs]
 
     def case_id(self, case):
-        return "tail=%s%s" % (case["tail"], ",short-response-of-%d-bytes" % self.short[case["short"]][0] if "short" in case else "")
+        return "tail=%s%s%s" % (case["tail"], ",short-response-of-%d-bytes" % self.short[case["short"]][0] if "short" in case else "",
+                                ",decoder-called-with-%s=%s" % tuple(case["request"]) if "request" in case else "")
 
     def interp_config(self, case):
         from .converter import l0_contracts
@@ -113,7 +135,10 @@ class FixedDecode(Unit):
             self.size = self.short[case["short"]][0]
             cells = cells[:self.size]
         self.vals = vals
-        return X.call(self.parser(), mkbuf(X, cells), **self.kwargs)
+        kw = dict(self.kwargs)
+        if "request" in case:
+            kw[case["request"][0]] = case["request"][1]
+        return X.call(self.parser(), mkbuf(X, cells), **kw)
 
     def ensures(self, case, a, out, X):
         if out.kind != "return":
